@@ -311,6 +311,41 @@ def search_c12(rng, n, S=None, kinds=None):
                 sc2 = interior(mc, absmat_scale(Ms, xn, Rs)).ravel() + np.abs(aarr.ravel() / dt) * (np.abs(interior(mc, xn).ravel()) + np.abs(interior(mc, oldn).ravel()))
                 ok2, _ = vec_close(lhs2, np.zeros_like(lhs2), sc2 * 1e3)
                 S.check(ok2, f"C12:row-law-after-explicit:{kind}", "row law violated for an implicit step that follows an explicit step", inp, float(np.max(np.abs(lhs2))), 0.0)
+            # (3b) a per-cell alpha given as ONE CellVariable object that is updated in place between the steps
+            aobj = pf.CellVariable(mc.m, rand_vals(rng, mc.shape(), "pos"))
+            pa_ = pf.CellVariable(mc.m, x0.copy(), make_bcs(mc, spec))
+            for stepi in range(3):
+                aobj.value = rand_vals(rng, mc.shape(), "pos") * (1.0 + stepi)
+                oldv = np.asarray(pa_._value).copy()
+                reca = RecordingSolver()
+                pf.solvePDE(pa_, [pf.transientTerm(pa_, dt, aobj)] + [t_ for _, t_ in sp], externalsolver=reca)
+                xa_ = reca.calls[-1][2]
+                if not np.all(np.isfinite(xa_)):
+                    break
+                an = np.asarray(aobj.value).ravel()
+                lhs3 = interior(mc, (Ms @ xa_) - Rs).ravel() + an * (interior(mc, xa_).ravel() - interior(mc, oldv).ravel()) / dt
+                sc3 = interior(mc, absmat_scale(Ms, xa_, Rs)).ravel() + np.abs(an / dt) * (np.abs(interior(mc, xa_).ravel()) + np.abs(interior(mc, oldv).ravel()))
+                ok3, _ = vec_close(lhs3, np.zeros_like(lhs3), sc3 * 1e3)
+                S.check(ok3, f"C12:row-law-alpha-reused:{kind}", "row law violated when the same alpha CellVariable is updated in place and reused in the next step", {**inp, "step": stepi},
+                        float(np.max(np.abs(lhs3))), 0.0)
+            # (3c) two variables sharing one BoundaryConditions object; boundary value changed between steps, the other stepped first:
+            #      the steady solution under the CURRENT conditions must be a fixed point / the dt -> infinity limit for both
+            bsh = make_bcs(mc, spec)
+            va = pf.CellVariable(mc.m, x0.copy(), bsh); vb = pf.CellVariable(mc.m, x0.copy(), bsh)
+            for v_ in (va, vb):
+                pf.solvePDE(v_, [pf.transientTerm(v_, 1.0, 1.0)] + [t_ for _, t_ in sp])
+            sdh = getattr(bsh, SIDES[1])
+            sdh.a = 0.0; sdh.b = 1.0; sdh.c = 2.75
+            ref = pf.CellVariable(mc.m, x0.copy(), bsh)
+            pf.solvePDE(ref, [t_ for _, t_ in sp])
+            sref = np.asarray(ref.value).copy()
+            if np.all(np.isfinite(sref)) and float(np.max(np.abs(sref))) < 1e6:
+                for v_ in (va, vb):
+                    pf.solvePDE(v_, [pf.transientTerm(v_, 1e13, 1.0)] + [t_ for _, t_ in sp])
+                scr = max(1.0, float(np.max(np.abs(sref))), float(np.max(np.abs(x0))))
+                S.check(bool(np.all(np.abs(np.asarray(va.value) - sref) <= 1e-5 * scr) and np.all(np.abs(np.asarray(vb.value) - sref) <= 1e-5 * scr)),
+                        f"C12:dt-infinity-shared-bc:{kind}", "with a shared BoundaryConditions object a dt = 1e13 step of the second variable does not return the steady solution for the current conditions",
+                        inp, [float(np.max(np.abs(np.asarray(va.value) - sref))), float(np.max(np.abs(np.asarray(vb.value) - sref)))], 0.0)
             if len(S.samples) < 2:
                 S.samples.append(inp)
         except Exception as ex:
